@@ -2,6 +2,9 @@
  * lane counts, staging of constants/parameters), C03 (every operand footprint inside what it is entitled to), C20 (the
  * function called is the one in the opcode's table entry).  Bounded: one instruction, n <= 40, m <= 2. */
 #include "stubs/prelude.h"
+#ifndef NMAX_DRV
+#define NMAX_DRV 17
+#endif
 int verif_sprintf_buf (char *buf);
 #define sprintf(buf, ...) verif_sprintf_buf(buf)
 #include "/repo/orc/orcutils.c"
@@ -69,7 +72,7 @@ void h_emulate(void) {
   insn->opcode = &g_op;
   int f = nondet_int(); __CPROVER_assume(f == 0 || f == ORC_INSTRUCTION_FLAG_X2 || f == ORC_INSTRUCTION_FLAG_X4);
   insn->flags = f; g_shift = (f == ORC_INSTRUCTION_FLAG_X2) ? 1 : (f == ORC_INSTRUCTION_FLAG_X4 ? 2 : 0);
-  g_N = nondet_int(); __CPROVER_assume(g_N >= 0 && g_N <= 40);
+  g_N = nondet_int(); __CPROVER_assume(g_N >= 0 && g_N <= NMAX_DRV);
   g_code->is_2d = nondet_bool(); g_M = g_code->is_2d ? nondet_int() : 1; __CPROVER_assume(g_M >= 1 && g_M <= 2);
   g_ex->n = g_N; g_ex->params[ORC_VAR_A1] = g_M;
   g_ex->program = NULL; g_ex->arrays[ORC_VAR_A2] = g_code;
@@ -77,15 +80,24 @@ void h_emulate(void) {
   int used[6]; int cnt = 0;
   for (int k = 0; k < 6; k++) {
     int isdest = k < 2; int sz = isdest ? g_op.dest_size[k] : g_op.src_size[k - 2];
-    int idx = nondet_int(); __CPROVER_assume(idx >= 0 && idx < ORC_N_VARIABLES);
+    /* variable index and kind go together (ORC_VAR_D1.., S1.., A1.., C1.., P1.., T1..): pick the class, then one of the
+     * first two slots of that class */
+    int cls = nondet_int(); int slot = nondet_int(); __CPROVER_assume(slot == 0 || slot == 1);
+    int idx, vt;
+    if (isdest) {
+      __CPROVER_assume(cls >= 0 && cls < 3);
+      idx = (cls == 0 ? ORC_VAR_D1 : (cls == 1 ? ORC_VAR_A1 : ORC_VAR_T1)) + slot;
+      vt = cls == 0 ? ORC_VAR_TYPE_DEST : (cls == 1 ? ORC_VAR_TYPE_ACCUMULATOR : ORC_VAR_TYPE_TEMP);
+    } else {
+      __CPROVER_assume(cls >= 0 && cls < 5);
+      idx = (cls == 0 ? ORC_VAR_S1 : (cls == 1 ? ORC_VAR_D1 + 2 : (cls == 2 ? ORC_VAR_C1 : (cls == 3 ? ORC_VAR_P1 : ORC_VAR_T1 + 2)))) + slot;
+      vt = cls == 0 ? ORC_VAR_TYPE_SRC : (cls == 1 ? ORC_VAR_TYPE_DEST : (cls == 2 ? ORC_VAR_TYPE_CONST : (cls == 3 ? ORC_VAR_TYPE_PARAM : ORC_VAR_TYPE_TEMP)));
+    }
     if (isdest) insn->dest_args[k] = idx; else insn->src_args[k - 2] = idx;
     if (sz == 0) continue;
     for (int q = 0; q < cnt; q++) __CPROVER_assume(used[q] != idx);
     used[cnt++] = idx;
     OrcCodeVariable *v = &g_code->vars[idx];
-    int vt = nondet_int();
-    if (isdest) __CPROVER_assume(vt == ORC_VAR_TYPE_TEMP || vt == ORC_VAR_TYPE_DEST || (vt == ORC_VAR_TYPE_ACCUMULATOR && idx >= ORC_VAR_A1 && idx < ORC_VAR_A1 + 4));
-    else __CPROVER_assume(vt == ORC_VAR_TYPE_TEMP || vt == ORC_VAR_TYPE_SRC || vt == ORC_VAR_TYPE_DEST || vt == ORC_VAR_TYPE_CONST || vt == ORC_VAR_TYPE_PARAM);
     v->vartype = vt;
     /* arrays are only touched by (x1) load/store instructions */
     if (is_array(vt)) __CPROVER_assume(f == 0);
